@@ -133,10 +133,11 @@ SetTape(t, s, i, kind, x) ==          \* returns <<tape', sb'>>
 \* what the replayer compares after the last operation: the marshalled text of the
 \* whole tape and of every value in it, whether the operation was refused, and the
 \* sequence of callbacks a deletion made
-Outputs(ds, err, vis) ==
+Outputs(ds, err, vis, tp, s) ==
   [text |-> RenderRoots(ds, 1),
    subs |-> [p \in AllPaths(ds) |-> Render(DocAt(ds, p))],
-   err |-> err, vis |-> vis]
+   err |-> err, vis |-> vis,
+   ser |-> Ser(tp, s)]      \* tag stream and value stream of a serialization of the tape
 
 DoSet(p, kind, x) ==
   LET v  == DocAt(docs, p)
@@ -148,7 +149,7 @@ DoSet(p, kind, x) ==
      /\ docs' = nd
      /\ tape' = IF ok THEN r[1] ELSE tape
      /\ sb'   = IF ok THEN r[2] ELSE sb
-     /\ out'  = Outputs(nd, ~ok, <<>>)
+     /\ out'  = Outputs(nd, ~ok, <<>>, IF ok THEN r[1] ELSE tape, IF ok THEN r[2] ELSE sb)
 
 DoDelA(p, S) ==
   LET v  == DocAt(docs, p)
@@ -157,7 +158,7 @@ DoDelA(p, S) ==
      /\ docs' = nd
      /\ tape' = FillMembers(tape, ValOff(tape, p), S)
      /\ sb'   = sb
-     /\ out'  = Outputs(nd, FALSE, v[2])             \* callback sequence: every element, in order
+     /\ out'  = Outputs(nd, FALSE, v[2], FillMembers(tape, ValOff(tape, p), S), sb)   \* callbacks: every element, in order
 
 DoDelO(p, K, nilfn, S) ==      \* S: ordinals among the *visited* members for which fn returns true
   LET v   == DocAt(docs, p)
@@ -168,7 +169,8 @@ DoDelO(p, K, nilfn, S) ==      \* S: ordinals among the *visited* members for wh
      /\ docs' = nd
      /\ tape' = FillMembers(tape, ValOff(tape, p), del)
      /\ sb'   = sb
-     /\ out'  = Outputs(nd, FALSE, IF nilfn THEN <<>> ELSE [k \in 1..Cardinality(vis) |-> v[2][NthOf(vis, k)]])
+     /\ out'  = Outputs(nd, FALSE, IF nilfn THEN <<>> ELSE [k \in 1..Cardinality(vis) |-> v[2][NthOf(vis, k)]],
+                        FillMembers(tape, ValOff(tape, p), del), sb)
 
 Init ==
   /\ docs0 \in Docs0
@@ -176,8 +178,7 @@ Init ==
   /\ copy \in CopyModes
   /\ hist = <<>>
   /\ docs = docs0
-  /\ LET e == TapeOf(docs0, copy) IN tape = e.w /\ sb = e.s
-  /\ out = Outputs(docs0, FALSE, <<>>)
+  /\ LET e == TapeOf(docs0, copy) IN tape = e.w /\ sb = e.s /\ out = Outputs(docs0, FALSE, <<>>, e.w, e.s)
 
 Next ==
   /\ Len(hist) < MaxOps
@@ -213,6 +214,13 @@ ReadersAgree ==
      \* only containers that are still live (not inside a NOP-filled range) are compared
      LET seqn == ReadV(tape, sb, ci).v[2] IN
        CountItems(tape, Live(tape, ci + 1), 0, Tag(tape, ci) = "{") = Len(seqn)
+\* serialize / deserialize: same documents, well-formed tape, canonical NOP runs
+RoundTripOK ==
+  copy => LET r == RoundTrip(tape, sb) IN
+          /\ r.ok
+          /\ DenoteDeser(r) = docs
+          /\ WellFormed(r.tape)
+          /\ NopExact(r.tape)
 \* an operation that is refused changes nothing
 RefusedIsNoop == [][out'.err => (tape' = tape /\ sb' = sb /\ docs' = docs)]_vars
 \* strings are only ever appended to the buffer
